@@ -57,6 +57,10 @@ fn main() {
                     world::install_seq_hooks();
                     props::c10::run(tier)
                 }
+                "C12" => {
+                    world::install_seq_hooks();
+                    props::c12::run(tier)
+                }
                 "C06" => props::c06::run(tier),
                 other => {
                     eprintln!("unknown property {other}");
@@ -102,6 +106,10 @@ fn main() {
                 "C10" => {
                     world::install_seq_hooks();
                     props::c10::replay(&v)
+                }
+                "C12" => {
+                    world::install_seq_hooks();
+                    props::c12::replay(&v)
                 }
                 "C06" => props::c06::replay(&v),
                 other => {
